@@ -597,6 +597,23 @@ class C20Events(EnumCheck):
         third = snapshot()
         if third != got:
             res.append(V("events-reconsolidate", f"re-consolidation differs: {third} vs {got}"))
+        # what resubmit-jobs does: the consolidated files are deleted, the directory stays; the rerun's processes log
+        # more events; the next summary holds the old and the new ones
+        evd = os.path.join(out, "events")
+        for n in os.listdir(evd):
+            os.remove(os.path.join(evd, n))
+        setup_event_logging(os.path.join(out, "run_jobs_batch_3_0_events.log"), mode="a")
+        ev = StructuredLogEvent(source="rerun", category="HPC", name=EV_NAMES[0], message="m rerun",
+                                timestamp="2026-01-01 11:00:00.250000", k=9)
+        log_event(ev)
+        close_event_logging()
+        for h in list(logging.getLogger("_jade_event").handlers):
+            logging.getLogger("_jade_event").removeHandler(h)
+        fourth = snapshot()
+        want4 = {name: list(got[name]) for name in EV_NAMES}
+        want4[EV_NAMES[0]] = want4[EV_NAMES[0]] + [(EV_NAMES[0], "2026-01-01 11:00:00.250000", "rerun", "m rerun", json.dumps({"k": 9}, sort_keys=True))]
+        if {k_: sorted(v_) for k_, v_ in fourth.items()} != {k_: sorted(v_) for k_, v_ in want4.items()}:
+            res.append(V("events-after-resubmission", f"summary after the consolidated files were deleted (directory kept) and one more event was logged: {fourth} != {want4}"))
         return res
 
     @staticmethod
